@@ -836,7 +836,7 @@ THREAD_OPS = {
     "fuse": 9, "unfuse": 3, "unfuse_all": 2, "reshape": 4, "tensordot": 8,
     "to_dense": 2, "phase": 2, "conj": 3, "dagger": 2, "qr": 1, "svd": 1,
     "unary": 1, "transpose": 3, "einsum": 1, "copy": 1, "align_axes": 1,
-    "svd_truncated": 1, "multiply_diagonal": 1, "matmul": 1, "arith2": 1,
+    "svd_truncated": 1, "multiply_diagonal": 1, "matmul": 3, "arith2": 1,
     "solve": 1, "eigh": 1, "trace": 1, "squeeze": 1, "expand_dims": 1, "sync_charges": 1,
     "sparsity": 2, "new": 2, "reassemble": 1, "tdot_scalar": 1, "expm": 1,
 }
@@ -979,6 +979,7 @@ class C15C(EngineBase):
                     out.append(s)
                     twins = {x: tw, tw: x}
                     ctx.focus = [x, 8]
+                    st.stats["reach.plain_twin_shared"] += 1
                 except HarnessError:
                     raise
                 except Exception:  # noqa: BLE001
@@ -993,34 +994,49 @@ class C15C(EngineBase):
                 # the same constructor call made by several threads
                 spec = ctx.new_spec()
                 spec["via"] = rng.choice(["random", "from_fill_fn", "from_blocks"])
-                pool.append({"op": "new", "in": [], "out": [ctx.fresh()], "a": {"spec": spec}})
+                pool.append([{"op": "new", "in": [], "out": [ctx.fresh()], "a": {"spec": spec}}])
                 continue
-            steps = ops.gen_steps(ctx, shared_heap)
-            if len(steps) == 1 and steps[0]["op"] not in ("new", "newvec", "del", "copy"):
-                pool.append(steps[0])
-                if any(n in twins for n in steps[0]["in"]):
+            steps = [s_ for s_ in ops.gen_steps(ctx, shared_heap) if s_["op"] != "del"]
+            # a template is one call on shared values, possibly preceded by the
+            # construction of its (thread-local) partner
+            if steps and steps[-1]["op"] not in ("new", "newvec", "del", "copy") and len(steps) <= 4 \
+                    and any(n in shared_heap for n in steps[-1]["in"]):
+                pool.append(steps)
+                if len(steps) == 1 and any(n in twins for n in steps[0]["in"]):
                     # the same call on the twin
                     t2 = copy.deepcopy(steps[0])
                     t2["in"] = [twins.get(n, n) for n in t2["in"]]
                     t2["out"] = [ctx.fresh() for _ in t2["out"]]
-                    pool.append(t2)
+                    pool.append([t2])
         # per-thread programs, generated while executing sequentially
         for tid in range(cfg["nthreads"]):
             own = {}
             ns = _collections.ChainMap(own, shared_heap)
             k = 0
             guard = 0
+            ren = {}
             while k < cfg["nops"] and guard < 30:
                 guard += 1
                 if pool and rng.random() < cfg["p_pool"]:
-                    steps = [copy.deepcopy(rng.choice(pool))]
+                    steps = copy.deepcopy(rng.choice(pool))
                 else:
                     steps = ops.gen_steps(ctx, dict(ns))
                 for s in steps:
                     if s["op"] == "del":
                         continue
                     s = dict(s, thread=tid)
-                    s["out"] = [f"t{tid}_{o}" if not o.startswith("t") else o for o in s["out"]]
+                    # thread-local names: outputs get the thread's prefix, and
+                    # later steps of the same macro step (the operation on a
+                    # freshly built partner) must refer to the renamed values
+                    s["in"] = [ren.get(n, n) for n in s["in"]]
+                    outs = []
+                    for o in s["out"]:
+                        no = o if o.startswith("t") else f"t{tid}_{o}"
+                        if no in ns and not o.startswith("t"):
+                            no = f"t{tid}_{o}_{k}"
+                        ren[o] = no
+                        outs.append(no)
+                    s["out"] = outs
                     s.pop("shared", None)
                     try:
                         res = ops.run_step(s, ns)
